@@ -730,6 +730,42 @@ class QvmCode(BaseCode):
 
         return bytes(code), debug_info
 
+    def check_limits(self):
+        # the module format has 16-bit fields for variable indices,
+        # frame sizes, literal indices and the lengths in the literals
+        # and data sections
+        def too_large(what):
+            raise CompileError(
+                EC.PROGRAM_TOO_LARGE,
+                f'Program too large for a QVM module: {what}')
+
+        for routine in self._routines.values():
+            if get_params_size(routine) + \
+               get_local_vars_size(routine) > 0xffff:
+                name = routine.name
+                if routine is self._main_routine:
+                    name = 'the main program'
+                too_large(
+                    f'the variables of {name} need more than 65535 '
+                    f'cells')
+        start_idx = 0
+        for vtype in self._globals.values():
+            size = get_type_size(self.compilation, vtype)
+            if start_idx > 0xffff or \
+               (not vtype.is_array and size > 0x10000):
+                too_large('SHARED and STATIC variables need more than '
+                          '65535 cells')
+            start_idx += size
+        if len(self._string_literals) > 0x10000 or \
+           any(len(lit) > 0xffff for lit in self._string_literals):
+            too_large('too many or too long string literals')
+        if len(self._data) > 0xffff or \
+           any(len(part) > 0x7fff or
+               any(item != Empty.value and len(item) > 0x7fff
+                   for item in part)
+               for part in self._data.values()):
+            too_large('too many or too long DATA items')
+
     def __bytes__(self):
         sections = []
 
